@@ -285,7 +285,7 @@ Example C13_nonvacuous_after_context_end :
   wf sc = true /\ no_known sc = true /\
   wrap_run fx_now sc =
   ([CSent true; CEnd ODeadline; CHdr []; CTrl []],
-   [SEntered (-1); SIncoming []; SGot 4; SSetH true; SDone true; SRecvErr]).
+   [SEntered (-1); SIncoming []; SGot 4; SSetH true; SDone true; SSent false; SRecvErr]).
 Proof. repeat split; reflexivity. Qed.
 
 (* a call made on a context whose deadline has already passed *)
